@@ -92,7 +92,7 @@ pub fn tracegen_only(prop: &str, seed: u64, runs: usize, only: Option<usize>) ->
                 // one program, three layouts: every variant must behave as the one specification instance says
                 let mut v = vec![];
                 for k in 0..3u64 {
-                    v.extend(general_run(prop, run * 3 + k as usize, s, Knobs { max_virtuals: 1, p_c: 0.05, p_x: 0.05, bidir: true, ..Knobs::control_flow() },
+                    v.extend(general_run(prop, run * 3 + k as usize, s, Knobs { max_virtuals: 1, p_c: 0.05, p_x: 0.05, bidir: true, twin_literals: true, ..Knobs::control_flow() },
                         Opt { layout_seed: Some(s.wrapping_add(k * 7919)), layout: if k == 0 { Lay::Canonical } else { Lay::Random }, group: (run as u64, k + 1), ..Opt::default() }));
                 }
                 v
